@@ -6,9 +6,11 @@ package fault
 import (
 	"errors"
 	"fmt"
+	"io"
 	"os"
 	"strings"
 	"sync"
+	"syscall"
 	"testing"
 
 	"github.com/hashicorp/raft"
@@ -34,6 +36,24 @@ type Fault struct {
 	// Plus is added to the resolved ordinal: with an aimed fault it reaches calls that exist only in the
 	// faulted run (the roll-back CommitState that follows a failed segment creation is that op's commit + 1)
 	Plus int `json:"plus,omitempty"`
+	// Err: the error value the failing call returns ("" = a plain error; eof = io.EOF, as a file
+	// that cannot grow reports a short write; shortwrite = io.ErrShortWrite; enospc = ENOSPC wrapped
+	// in a PathError). Whatever the value, a WriteAt that wrote less than it was given has failed.
+	Err string `json:"err,omitempty"`
+}
+
+var faultErrs = []string{"", "", "eof", "eof", "shortwrite", "enospc"}
+
+func faultErr(kind string) error {
+	switch kind {
+	case "eof":
+		return io.EOF
+	case "shortwrite":
+		return io.ErrShortWrite
+	case "enospc":
+		return &os.PathError{Op: "write", Path: "segment", Err: syscall.ENOSPC}
+	}
+	return errInjected
 }
 
 type FOp struct {
@@ -93,6 +113,7 @@ func genCase(t *rapid.T) Case {
 			Mode: rapid.SampledFrom([]string{"transient", "transient", "persistent"}).Draw(t, "fmode")}
 		if f.Kind == string(simfs.KWriteAt) {
 			f.Partial = rapid.SampledFrom([]int{0, 0, 8, 16, 40, 1000}).Draw(t, "partial")
+			f.Err = rapid.SampledFrom(faultErrs).Draw(t, "ferr")
 		}
 		if f.Kind == string(simfs.KCreate) && rapid.Bool().Draw(t, "createLeavesFile") {
 			f.Partial = 1 // the failing Create leaves the (empty) file behind
@@ -141,6 +162,7 @@ func genTruncCase(t *rapid.T) Case {
 		Sel: rapid.IntRange(0, 7).Draw(t, "fsel"), Mode: rapid.SampledFrom([]string{"transient", "transient", "transient", "persistent"}).Draw(t, "fmode"), Op: target + 1}
 	if f.Kind == string(simfs.KWriteAt) {
 		f.Partial = rapid.SampledFrom([]int{0, 0, 8, 16, 1000}).Draw(t, "partial")
+		f.Err = rapid.SampledFrom(faultErrs).Draw(t, "ferr")
 	}
 	c.Faults = []Fault{f}
 	if rapid.IntRange(0, 5).Draw(t, "doubleFault") == 0 {
@@ -174,6 +196,7 @@ type resolved struct {
 	mode    string
 	partial int
 	active  bool // persistent fault switched on
+	err     error
 }
 
 func (in *injector) hook(ev simfs.Event) (int, error) {
@@ -200,10 +223,14 @@ func (in *injector) hook(ev simfs.Event) (int, error) {
 				p.active = true
 			}
 			in.hits++
-			if p.partial > 0 {
-				return p.partial, errInjected
+			e := p.err
+			if e == nil {
+				e = errInjected
 			}
-			return -1, errInjected
+			if p.partial > 0 {
+				return p.partial, e
+			}
+			return -1, e
 		}
 	}
 	return -1, nil
@@ -705,7 +732,7 @@ func runCaseFor(c Case, prop string) (res common.Result) {
 				aimed = true
 			}
 		}
-		in.plan = append(in.plan, resolved{kind: simfs.Kind(f.Kind), ord: ord, mode: f.Mode, partial: f.Partial})
+		in.plan = append(in.plan, resolved{kind: simfs.Kind(f.Kind), ord: ord, mode: f.Mode, partial: f.Partial, err: faultErr(f.Err)})
 	}
 	if len(in.plan) == 0 {
 		return
